@@ -10,14 +10,14 @@ LX = 'Tracked(lx): Tracked<&mut HLog<Req, Resp>>'
 CALL_RULES = [
     Rule('R5:assoc-resp', r'Stub::Resp', 'Resp', where='sig', why='associated type of the backing stub written as a type parameter'),
     Rule('R5:assoc-req', r'Self::Req', 'Req', where='sig', why='associated type of the impl (type Req = Stub::Req)'),
-    Rule('R6:lx', r'next\.call\(ctx, request\)', 'next.call(ctx, request, Tracked(lx))', 1, where='body', why='ghost log of the calls on the backing stubs'),
+    Rule('R6:lx', r'\b(\w+)\.call\(ctx, request\)', r'\1.call(ctx, request, Tracked(lx))', 1, where='body', why='ghost log of the calls on the backing stubs'),
 ]
 
 
 def unit():
     return Unit('lb_fairness', prelude=['atomic_counter.rs', 'lb_models.rs'], lemmas=['round_robin_fair.rs'], fx_type='CFx',
                 header='use vstd::arithmetic::div_mod::*;\n',
-                fx_prims=[r'self\.next\.fetch_add\('], fx_fns=[r'self\.0\.next\(', r'self\.stubs\.next\('],
+                fx_prims=[r'self\.next\.fetch_add\('], fx_fns=[r'\.next\('],
                 rules=[Rule('R5:fetch-add', r'fetch_add\(1, Ordering::Relaxed\)', 'fetch_add(1)', why='prelude model of the atomic counter (the ordering argument only concerns other memory)')],
                 parts=[
         TypeItem(SRC, 'struct', 'State'),
